@@ -321,9 +321,12 @@ func (tree *ParserT) parseStatement(exec bool) error {
 				if err != nil {
 					return err
 				}
-				// i don't know why I need the next 4 lines, but tests fail without it
-				tree.charPos++
+				// when not executing, parseObject stops in front of the
+				// closing brace (which must not reach the statement's own
+				// '}' handling); when executing, processStatementFromExpr
+				// has already stepped onto it
 				if !exec {
+					tree.charPos++
 					appendToParam(tree, '}')
 				}
 			case '(':
